@@ -14,7 +14,7 @@ RULE = ("(i) system level: stock dynamic cases x back-end configurations {klu, u
         "in the thorough tier): power-flow solution, trajectory at tf and eigenvalues must agree pairwise with the klu "
         "reference to solver precision when all runs use tol = 1e-10 and honest Newton; two fresh processes with different "
         "PYTHONHASHSEED must give bit-identical trajectories. (ii) solver level: generated sequences of calls on one Solver "
-        "instance per back-end (same pattern / new values, new pattern, singular then regular, refresh flags set or not, "
+        "instance per back-end (same pattern / new values, new pattern, matrices with tiny non-zero diagonal entries that need pivoting, singular then regular, refresh flags set or not, "
         "solve vs linsolve, clear), executed in a journalled subprocess; every call documented to factorise must return x "
         "with |Ax-b| <= 1e-9 |A||x| against a dense numpy residual, a singular matrix must give NaN or an exception and the "
         "next regular call must be right again; a crash of the subprocess is attributed to the journalled step. "
@@ -112,7 +112,7 @@ def sequences(draw):
 
     I, J = pattern(n)
     for k in range(draw(st.integers(2, 8))):
-        kind = draw(st.sampled_from(['same', 'same', 'values', 'values', 'pattern', 'singular', 'resize', 'clear']))
+        kind = draw(st.sampled_from(['same', 'same', 'values', 'values', 'pattern', 'singular', 'resize', 'clear', 'weakdiag', 'weakdiag']))
         if kind == 'clear':
             steps.append(dict(op='clear'))
             continue
@@ -121,9 +121,27 @@ def sequences(draw):
         if kind == 'resize':
             n = draw(st.integers(1, 12))
             I, J = pattern(n)
+        perm = None
+        if kind == 'weakdiag' and n >= 2:
+            # a regular, well-conditioned matrix whose diagonal entries are non-zero but tiny (like the 1e-8 entries ANDES
+            # reserves on the algebraic diagonal): the dominant entries sit on a permutation, so the factorisation must pivot
+            perm = list(range(n))
+            rnd.shuffle(perm)
+            I, J = pattern(n)
+            for i in range(n):
+                if (i, perm[i]) not in zip(I, J):
+                    I.append(i)
+                    J.append(perm[i])
         V = []
         for i, j in zip(I, J):
-            if i == j:
+            if perm is not None:
+                if j == perm[i]:
+                    V.append(rnd.choice([-1, 1]) * rnd.uniform(3.0, 6.0) * (1 + len(I) / max(1, n)))
+                elif i == j:
+                    V.append(rnd.choice([-1, 1]) * rnd.choice([1e-8, 1e-9, 1e-6, 1e-13]))
+                else:
+                    V.append(rnd.uniform(-1.0, 1.0))
+            elif i == j:
                 V.append(rnd.choice([-1, 1]) * rnd.uniform(3.0, 6.0) * (1 + len(I) / max(1, n)))
             else:
                 V.append(rnd.uniform(-1.0, 1.0))
@@ -148,7 +166,7 @@ def solver_case(ctx, seq):
         prev_kinds = kinds[:last + 1] if last is not None else kinds
         ctx.fail('solver_process_crashed', dict(sequence=seq, returncode=rc, at_step=last, step_kind=step.get('kind') if step else None),
                  sig=dict(lib=seq['lib'], signal=rc < 0,
-                          pattern_changed_with_cached_symbolic=bool(step and step['op'] == 'solve' and step.get('kind') in ('pattern', 'resize', 'singular')
+                          pattern_changed_with_cached_symbolic=bool(step and step['op'] == 'solve' and step.get('kind') in ('pattern', 'resize', 'singular', 'weakdiag')
                                                                     and not step.get('set_factorize'))))
         return
     refreshed_ever = False
